@@ -11,6 +11,10 @@ R2 addressing: replies are copies of the request (node id inherited); the only n
 R3 validity by construction: the (command, sub-type) of every constructed reply is defined in
    the version, and a constant payload is accepted by that version's payload rule.
 R4 every outbound string is Message.encode() of such a message (or a held one) - C07-R1 / C01-INV.
+R5 the value carried by a value-request reply is maintained correctly: a reported value clears
+   the pending desired value of the same (child, value type), the lookup answers the pending
+   desired value before the reported one, and a desired value is stored only after the gateway's
+   own command constructor validated it for the configured version (shared with C08-R3/R4/R5).
 """
 from __future__ import annotations
 
@@ -171,6 +175,7 @@ def run(analysis: Analysis, tier: str) -> RuleResult:
     res.explanation = [
         "Reply construction decided on every abstract path of Gateway.logic per version / family / flavour: R1 the handler result for each dispatched (command, sub-type) has the prescribed shape (None, or a copy of the request with exactly the prescribed fields replaced by the prescribed values: set+value for req, M/I for config, timegm for time, id response carrying the id reserved on this very path, broadcast discover for gateway-ready >= 2.0, reboot under the reboot flag, firmware responses), all other inputs are silent;",
         "R2 addressing (copies inherit the node id; only override is broadcast 255; the presentation request of is_sensor goes to the looked-up node, child 255, once, >= 2.0 only); R3 the (command, sub-type) of each constructed reply is defined in the version and constant payloads satisfy that version's payload rule.",
+        "R5 (shared with C08): the stored / desired values a req reply copies are maintained by confirmation, looked up desired-first, and desired values are validated by the gateway's command constructor before they are stored.",
         "Which value is 'latest' over a history and the clock are not decided.",
     ]
     specs = specs_for(analysis, tier)
@@ -221,6 +226,12 @@ def run(analysis: Analysis, tier: str) -> RuleResult:
             okv = vnum(ver) >= (2, 0)
             res.add("C05-R2", f"{ver}: presentation requests are sent only from version 2.0", okv, "mysensors/__init__.py", f"is_sensor enqueued {pr['job']}", context=s["ctx"])
     presentation_request_rule(analysis, res)
+    # R5: the value a req reply carries is maintained correctly and only validated values are stored
+    from . import c08
+
+    c08.confirmation_rule(analysis, res, "C05-R5")
+    c08.lookup_rule(analysis, res, "C05-R5", "C05-R5")
+    c08.accept_rule(analysis, res, "C05-R5")
     need = {("req", None), ("set", None), ("internal", "I_CONFIG"), ("internal", "I_TIME"), ("internal", "I_ID_REQUEST"), ("internal", "I_GATEWAY_READY"), ("stream", "ST_FIRMWARE_CONFIG_REQUEST"), ("stream", "ST_FIRMWARE_REQUEST")}
     missing = need - replying
     for t, sub in sorted(missing, key=str):
